@@ -172,6 +172,16 @@ func runC04(r *run) {
 			// long lists with keys given more than once: the value given last is the member's value
 			c.attrs = append(c.attrs, g.genWideAttrs(true)...)
 		}
+		if i%32 == 5 {
+			// code points some readers treat specially (byte order mark, noncharacters, line and paragraph separators)
+			// are ordinary characters of a JSON string: they come back as they went in
+			sp := []string{"\ufeffstarts with a byte order mark", "non\ufffechar\uffffacters", "sep\u2029arators\u2028", "\ufeff", "\uffff\ufffe\ufeff\ufffd\ufffc"}[(i/32)%5]
+			if (i/32)%2 == 0 {
+				c.msg = sp
+			}
+			c.attrs = append(c.attrs, gattr{key: "sp" + sp[:3], val: gval{kind: "string", goVal: sp, tok: "S:" + hxs(sp), text: sp}},
+				gattr{key: "spl", val: gval{kind: "stringer", goVal: c04Stringer{sp}, tok: "S:" + hxs(sp), text: sp}})
+		}
 		if g.chance(1, 2) {
 			c.name = []string{"app", "my logger", "q\"uote\nnl", "\xff"}[g.intn(4)]
 		}
@@ -280,6 +290,7 @@ func runC04(r *run) {
 		}
 	}
 	c04PreparedLists(r, g)
+	c04GroupGrows(r)
 	// the quoting functions themselves, and the standard readers of their output
 	nq := 1500
 	if r.tier == "thorough" {
@@ -446,4 +457,72 @@ func jsonTestTwin(prop string, a []string) {
 		}
 	}
 	r.reportAsChild()
+}
+
+// c04GroupGrows: a group the application keeps and extends between two records (SetValue with one more member, or with a
+// new member list): each record decodes to the members the group had when that call was made.
+func c04GroupGrows(r *run) {
+	for _, how := range []string{"SetValue(Attr)", "SetValue(Attrs)", "SetValue([]Attr)", "fresh group each time"} {
+		for _, level := range []string{"call argument", "logger attribute"} {
+			slog.VerifResetGlobals()
+			rec := &recorder{}
+			l := slog.New("gg").SetJSONMode(true).SetLevel(slog.InfoLevel).SetWriter(rec).SetErrorWriter(rec)
+			grp := slog.Group("request", "method", "GET", "path", "/hello")
+			if level == "logger attribute" {
+				l.SetAttrs(grp)
+			}
+			want := []map[string]any{{"method": "GET", "path": "/hello"}}
+			emit := func(msg string) {
+				if level == "logger attribute" {
+					l.Info(msg)
+				} else {
+					l.Info(msg, grp)
+				}
+			}
+			emit("request received")
+			switch how {
+			case "SetValue(Attr)":
+				grp.SetValue(slog.Int("status", 200))
+				want = append(want, map[string]any{"method": "GET", "path": "/hello", "status": json.Number("200")})
+			case "SetValue(Attrs)":
+				grp.SetValue(slog.Attrs{slog.String("method", "PUT"), slog.Int("status", 201)})
+				want = append(want, map[string]any{"method": "PUT", "status": json.Number("201")})
+			case "SetValue([]Attr)":
+				grp.SetValue([]slog.Attr{slog.Int("status", 204)})
+				want = append(want, map[string]any{"status": json.Number("204")})
+			default:
+				if level == "logger attribute" {
+					continue
+				}
+				grp = slog.Group("request", "method", "GET", "path", "/hello", "status", 200)
+				want = append(want, map[string]any{"method": "GET", "path": "/hello", "status": json.Number("200")})
+			}
+			emit("request served")
+			// and once more: what the second record showed stays
+			want = append(want, want[1])
+			emit("request logged again")
+			got := rec.take()
+			in := map[string]any{"group": `Group("request", "method", "GET", "path", "/hello")`, "changed between the records by": how, "passed as": level}
+			if len(got) != 3 {
+				r.violate(violation{What: "three admitted calls, other than three payloads", Input: in, Actual: len(got)})
+				continue
+			}
+			for k, line := range got {
+				dec := json.NewDecoder(bytes.NewReader(line))
+				dec.UseNumber()
+				var obj map[string]any
+				if err := dec.Decode(&obj); err != nil {
+					r.violate(violation{What: "the record is not valid JSON: " + err.Error(), Input: in, Actual: string(line)})
+					continue
+				}
+				gm, _ := obj["request"].(map[string]any)
+				if fmt.Sprint(gm) != fmt.Sprint(want[k]) {
+					r.violate(violation{What: "a group that was extended between two records does not decode to the members it had when the record was logged",
+						Input: in, Expected: want[k], Actual: string(line)})
+				}
+			}
+			r.seen("group grows " + how + " " + level)
+		}
+	}
+	slog.VerifResetGlobals()
 }
